@@ -111,8 +111,12 @@ def ob_flux2ab(rows):
         ab = sdssflux2ab(arr)
         iv = sdssflux2ab(arr, ivar=True)
         mg = sdssflux2ab(arr, magnitude=True)
+        ab2 = sdssflux2ab(arr)          # the same call again, after the other forms have run in this process
+        iv2 = sdssflux2ab(arr, ivar=True)
         for r in range(rows):
             for b in range(5):
+                ctx.require(z3.And(zt(R.lift(ab2[r, b])) == zt(R.lift(ab[r, b])), zt(R.lift(iv2[r, b])) == zt(R.lift(iv[r, b]))),
+                            'sdssflux2ab: a repeated call gives the same answer (no state carried between calls)', dict(d, r=r, b=b))
                 k = 10.0 ** (-CORR[b] / 2.5)
                 kk = z3.RealVal(str(Fraction(k)))
                 x = zt(fl[r][b])
@@ -250,6 +254,8 @@ def replay(rec):
         keep = fl.copy()
         ab, iv, mg = sdssflux2ab(fl), sdssflux2ab(fl, ivar=True), sdssflux2ab(fl, magnitude=True)
         if (fl != keep).any():
+            return True
+        if (sdssflux2ab(fl) != ab).any() or (sdssflux2ab(fl, ivar=True) != iv).any():
             return True
         k = 10.0 ** (-np.array(CORR) / 2.5)
         tol = 1e-11 * np.maximum(1.0, np.abs(fl))
